@@ -162,7 +162,11 @@ pub fn run_check(ctx: &Ctx) -> Outcome {
             check_e1_medium(ctx, Prop::C12, &mut out, 12, 200);
             check_putresult_laws(ctx, &mut out);
         }
-        "C14" => check_e1(ctx, Prop::C14, &mut out, 6000, 100000),
+        "C14" => {
+            check_e1(ctx, Prop::C14, &mut out, 6000, 100000);
+            // caches built by a conversion (repeated keys included) are reachable states too
+            check_conv(ctx, crate::conv::ConvProp::C14, &mut out, 2000, 40000);
+        }
         "C15" => check_e1(ctx, Prop::C15, &mut out, 12000, 250000),
         "C11" => {
             run_nostd_child(ctx, &mut out);
@@ -174,6 +178,9 @@ pub fn run_check(ctx: &Ctx) -> Outcome {
         "C19" => {
             check_c19(ctx, &mut out);
             check_conc(ctx, &mut out);
+            // run-time side of "no two live &mut to one value": what the mutable iterators
+            // actually hand out through every positional call and std adaptor
+            check_alias(ctx, &mut out, 6000, 100000);
         }
         "C18" => {
             check_c18(ctx, &mut out, 2000, 40000);
@@ -234,6 +241,10 @@ pub fn replay(prop: &str, engine: &str, case: &Value) -> Result<Option<Violation
         "conc" => {
             let (_, bad) = crate::conc::run_conc(false);
             Ok(bad.map(|m| Violation { prop: "C19", step: 0, msg: m, sig: "conc/-/shared-readers-disagree".into() }))
+        }
+        "alias" => {
+            let c: crate::alias::ACase = serde_json::from_value(case.clone()).map_err(|e| e.to_string())?;
+            Ok(crate::alias::run_alias(&c).violation)
         }
         "keys" => {
             let c: crate::keys::KCase = serde_json::from_value(case.clone()).map_err(|e| e.to_string())?;
@@ -314,6 +325,7 @@ pub fn replay(prop: &str, engine: &str, case: &Value) -> Result<Option<Violation
                 "C01" => crate::conv::ConvProp::C01,
                 "C02" => crate::conv::ConvProp::C02,
                 "C04" => crate::conv::ConvProp::C04,
+                "C14" => crate::conv::ConvProp::C14,
                 _ => crate::conv::ConvProp::C03,
             };
             Ok(crate::conv::run_conv(&c, p).violation)
